@@ -137,6 +137,11 @@ theorem C04_text_whitespace (s : List Gomjml.Amp.B) :
 theorem C04_void_normaliser_keeps_text (fuel : Nat) (s : List Gomjml.Amp.B) (h : ∀ b ∈ s, b ≠ 60) :
     Gomjml.TextVoid.normF fuel s = s := Gomjml.TextVoid.normF_no_lt fuel s h
 
+/-- **the void-tag normaliser re-spells tags and nothing else**: tags are rewritten (` />`, `<br>` without its slash), blanks next
+    to a `<br>` go — every byte of the content that is neither white space nor a slash comes out, once, in order -/
+theorem C04_void_normaliser_respells_only (s : List Gomjml.Amp.B) :
+    Gomjml.TextVoid.inkS (Gomjml.TextVoid.normalize s) = Gomjml.TextVoid.inkS s := Gomjml.TextVoid.normalize_inkS s
+
 /-- non-vacuity: `"  a \n\t b<br/>  "` becomes `"a b<br/>"` -/
 example : Gomjml.TextFlow.textInner [32, 32, 97, 32, 10, 9, 32, 98, 60, 98, 114, 47, 62, 32, 32] = [97, 32, 98, 60, 98, 114, 47, 62] := by decide
 
